@@ -69,7 +69,7 @@ def make_prior(kind="default", poly_trend=1, n_offsets=0, sigma_K0=30.0, P0_days
     return out
 
 
-def make_data(n=5, layout="short", err="hetero", unit="km/s", t_ref=None, seed=0, n_surveys=1, mixed_units=False, t_ref_scale="tcb", interleave=False):
+def make_data(n=5, layout="short", err="hetero", unit="km/s", t_ref=None, seed=0, n_surveys=1, mixed_units=False, t_ref_scale="tcb", interleave=False, y_from=None):
     """Returns (data or list of data, plain dict t, y, sig [km/s], t_ref, labels)."""
     import astropy.units as u
     from astropy.time import Time
@@ -84,7 +84,15 @@ def make_data(n=5, layout="short", err="hetero", unit="km/s", t_ref=None, seed=0
     else:  # repeated epochs
         t = T0 + np.sort(np.array([(k // 2) * 7.7 for k in range(n)]) + 0.0)
     y = 12.0 * np.sin(np.arange(n) * 1.7 + 0.3 + seed) + 3.0 + j
-    if err == "uniform":
+    if y_from is not None:
+        # noiseless data generated from the model itself at theta = y_from (P, e, omega, M0): K=7, v0=3 km/s
+        from .ref import kepler
+
+        tr0 = float(t.min()) if t_ref is None else float(t_ref)
+        y = 7.0 * kepler.zfunc(t, y_from[0], y_from[1], y_from[2], y_from[3], tr0) + 3.0
+    if err == "small":
+        sig = 0.02 * (1 + 0.2 * (np.arange(n) % 3))
+    elif err == "uniform":
         sig = np.full(n, 0.8)
     elif err == "hetero":
         sig = 0.3 + 0.9 * ((np.arange(n) * 5) % 7) / 3.0
@@ -110,8 +118,9 @@ def make_data(n=5, layout="short", err="hetero", unit="km/s", t_ref=None, seed=0
         for k in range(n_surveys):
             sl = slice(bounds[k], bounds[k + 1])
             if interleave:
-                # surveys interleaved in time: survey k owns epochs k, k+S, k+2S, ...
-                sl = np.arange(n)[k::n_surveys]
+                # surveys interleaved in time: survey k owns epochs k+1, k+1+S, ... (mod S)
+                # (the first listed survey does not hold the earliest epoch)
+                sl = np.arange(n)[((k + 1) % n_surveys)::n_surveys]
             labels[sl] = k
             if mixed_units and k % 2 == 1:
                 # this survey is delivered in another (equivalent) unit than the first one; errors in yet another
